@@ -62,11 +62,19 @@ def plan(tier: str) -> list:
         return [{"name": "stub", "n": 27000, "max_n": 12, "max_moves": 200,
                  "mode": "stub"},
                 {"name": "real", "n": 3000, "max_n": 12, "max_moves": 200,
-                 "mode": "real"}]
+                 "mode": "real"},
+                {"name": "longreal", "n": 48, "max_n": 12, "max_moves": 200,
+                 "mode": "real", "long": True},
+                {"name": "longstub", "n": 32, "max_n": 12, "max_moves": 200,
+                 "mode": "stub", "long": True}]
     return [{"name": "stub", "n": 800000, "max_n": 40, "max_moves": 2000,
              "mode": "stub"},
             {"name": "real", "n": 100000, "max_n": 40, "max_moves": 2000,
-             "mode": "real"}]
+             "mode": "real"},
+            {"name": "longreal", "n": 3000, "max_n": 40, "max_moves": 2000,
+             "mode": "real", "long": True},
+            {"name": "longstub", "n": 1500, "max_n": 40, "max_moves": 2000,
+             "mode": "stub", "long": True}]
 
 
 def warmup() -> None:
@@ -192,6 +200,9 @@ def generate(rng: random.Random, batch: dict) -> dict:
             stop = rng.randint(0, max(1, n_moves))
         else:
             stop = n_moves + 1
+        if batch.get("long"):
+            # the scripted stream is followed by a seeded one: long runs
+            stop = rng.randint(17000, 40000)
         doc.update({"start_perm": perm, "draws": draws,
                     "stop_after_polls": stop})
         if rng.random() < 0.3:
@@ -217,8 +228,9 @@ def generate(rng: random.Random, batch: dict) -> dict:
             doc["more_runs"] = [{"seed": rng.getrandbits(48)}
                                 for _ in range(rng.choice([1, 2]))]
         doc.update({"seed": rng.getrandbits(48),
-                    "max_fes": rng.choice([1, 2, 3, 10, 50,
-                                           batch["max_moves"]]),
+                    "max_fes": rng.randint(17000, 40000)
+                    if batch.get("long") else rng.choice(
+                        [1, 2, 3, 10, 50, batch["max_moves"]]),
                     "via": rng.choice(["plain", "plain", "for_fes",
                                        "from_starting_point"])})
     return doc
@@ -375,7 +387,8 @@ def _execute_single(doc: dict, shared: dict) -> dict:
     guard = min(400_000, 4 * maxd + 1024)
     alloc = _GuardAlloc(np, guard)
 
-    state = {"cur": None, "cur_len": None, "handovers": 0, "polls": 0,
+    state = {"pair": [], "cur": None, "cur_len": None, "handovers": 0,
+             "polls": 0,
              "pos": 0, "last_move": None, "classes": [], "applied": 0}
     model = {"h": {}}
 
@@ -454,18 +467,42 @@ def _execute_single(doc: dict, shared: dict) -> dict:
         stop_after = int(doc["stop_after_polls"])
         hi = max(1, n - 1)
 
+        fallback = random.Random(len(draws) * 7919 + n)
+
+        def next_draw(bound: int) -> int:
+            """The scripted stream; a seeded stream once the script is used up."""
+            if state["pos"] < len(draws):
+                v = draws[state["pos"]] % bound
+            else:
+                v = fallback.randrange(bound)
+            state["pos"] += 1
+            return v
+
         class SimRandom:
-            def integers(self, bound):
-                if state["pos"] < len(draws):
-                    v = draws[state["pos"]] % int(bound)
-                else:
-                    v = 0
-                state["pos"] += 1
-                # pair bookkeeping: every second draw completes a move
-                if state["pos"] % 2 == 0:
-                    a = draws[state["pos"] - 2] % int(bound) \
-                        if state["pos"] - 2 < len(draws) else 0
-                    i, j = (a, v) if a <= v else (v, a)
+            """Scripted stand-in for numpy.random.Generator."""
+
+            def integers(self, low, high=None, size=None, dtype=np.int64,
+                         endpoint=False):
+                if high is None:
+                    low, high = 0, low
+                span = int(high) - int(low) + (1 if endpoint else 0)
+                if size is not None:
+                    # vectorised draws: the (i, j) bookkeeping of the
+                    # reference model no longer applies
+                    state["vector_draws"] = True
+                    state["last_move"] = None
+                    cnt = int(np.prod(size))
+                    vals = [int(low) + next_draw(span) for _ in range(cnt)]
+                    return np.array(vals, dtype=dtype).reshape(size)
+                v = next_draw(span)
+                if state.get("vector_draws"):
+                    return np.int64(int(low) + v)
+                state["pair"].append(v)
+                # pair bookkeeping: every second scalar draw completes a move
+                if len(state["pair"]) == 2:
+                    a, v2 = state["pair"]
+                    state["pair"] = []
+                    i, j = (a, v2) if a <= v2 else (v2, a)
                     res["ops"] += 1
                     if i == j:
                         core.bump(res["probes"], "skipped_equal")
@@ -475,10 +512,24 @@ def _execute_single(doc: dict, shared: dict) -> dict:
                         state["last_move"] = None
                     else:
                         state["last_move"] = (i, j)
-                return np.int64(v)
+                return np.int64(int(low) + v)
 
             def shuffle(self, x):
                 x[:] = start
+
+            def permutation(self, x):
+                return np.array(start, dtype=np.int64) if isinstance(
+                    x, (int, np.integer)) else np.array(x)[start]
+
+            def random(self, size=None):
+                if size is None:
+                    return next_draw(1 << 20) / float(1 << 20)
+                cnt = int(np.prod(size))
+                return np.array([next_draw(1 << 20) / float(1 << 20)
+                                 for _ in range(cnt)]).reshape(size)
+
+            def uniform(self, low=0.0, high=1.0, size=None):
+                return low + (high - low) * self.random(size)
 
         from moptipy.api.process import Process as _MoptipyProcess
         warm = doc.get("warm")
@@ -558,9 +609,7 @@ def _execute_single(doc: dict, shared: dict) -> dict:
 
             def should_terminate(self):
                 state["polls"] += 1
-                if state["polls"] > stop_after:
-                    return True
-                return state["pos"] >= len(draws)
+                return state["polls"] > stop_after
 
         proc = SimProcess()
         old_np = fea_mod.np
